@@ -92,6 +92,16 @@ def variants(quick, rng):
             seq[pos] = x
             jobs.append({"what": f"{'-'.join(seq)} without backbone {nm} of residue {pos + 1}", "args": [f"--ff={ffs[(n + pos) % 6]}"],
                          "text": gen.pdb_text([gen.peptide(seq, omit={(pos, nm)})])})
+    # nucleic acids: the old spellings the topology declares (C5*, O1P, ...), hydrogens given, base / sugar atoms missing
+    jobs.append({"what": "DNA strand, alternative spellings", "text": gen.pdb_text([gen.respell(gen.nucleic("ACGT", "D"))]), "args": ["--ff=AMBER"]})
+    jobs.append({"what": "RNA strand, alternative spellings", "text": gen.pdb_text([gen.respell(gen.nucleic("ACGU", "R"))]), "args": ["--ff=CHARMM"]})
+    jobs.append({"what": "DNA strand with hydrogens", "text": gen.pdb_text([gen.nucleic("ACGT", "D", hydrogens=True)]), "args": ["--ff=AMBER"]})
+    dna = [a for a in gen.nucleic("ACGT", "D") if not (a["res_index"] == 0 and a["name"] == "N9") and not (a["res_index"] == 2 and a["name"] == "O4'")]
+    jobs.append({"what": "DNA strand without N9 of 1 and O4' of 3", "text": gen.pdb_text([dna]), "args": ["--ff=CHARMM"]})
+    rna = [a for a in gen.nucleic("ACGU", "R") if not (a["res_index"] == 1 and a["name"] == "O2'")]
+    jobs.append({"what": "RNA strand without O2' of 2", "text": gen.pdb_text([rna]), "args": ["--ff=AMBER"]})
+    jobs.append({"what": "protein and DNA", "args": ["--ff=AMBER"],
+                 "text": gen.pdb_text([gen.peptide(["ALA", "LYS", "SER"]), gen.nucleic("GC", "D", origin=(30.0, 0, 0)), gen.water((15, 5, 5), resseq=301)])})
     # backbone gap inside one chain (no TER, numbering continues)
     full = gen.peptide(["ALA", "SER", "LYS", "GLY", "TRP", "ASP", "VAL", "LEU"])
     gap = [a for a in full if a["res_index"] not in (3, 4)]
